@@ -131,6 +131,52 @@ func runRelC03(m *Model, c relC03) []Diff {
 		vs = append(vs, showVisit(wn))
 	}
 	diffs = append(diffs, cmp("walk: iterator vs callback", "v="+showVisits(vs)+" e="+classify(ierr), w1)...)
+	// the nodes a walk handed out keep telling the truth while the same root goes through other operations: a caller
+	// that kept its *WalkerNode pointers reads them after a text output (both names, every output path), an encoded
+	// output and another walk of the same root; and a callback that prints the tree from inside the walk still reads
+	// its own node right.  The Markdown counterpart builds a tree per call, so its walk (w2) is the reference.
+	{
+		var kept []*gtree.WalkerNode
+		gtree.WalkFromRoot(root, func(wn *gtree.WalkerNode) error { kept = append(kept, wn); return nil }, fo...)
+		reread := func() string {
+			var vs []string
+			for _, wn := range kept {
+				vs = append(vs, showVisit(wn))
+			}
+			return "v=" + showVisits(vs) + " e=nil"
+		}
+		if e := classify(gtree.WalkFromRoot(root, func(*gtree.WalkerNode) error { return nil }, fo...)); e == "nil" {
+			var sink bytes.Buffer
+			for _, step := range []struct {
+				what string
+				run  func()
+			}{
+				{"OutputFromRoot", func() { gtree.OutputFromRoot(&sink, root, fo...) }},
+				{"OutputProgrammably", func() { gtree.OutputProgrammably(&sink, root, fo...) }},
+				{"OutputFromRoot without the iterator", func() {
+					gtree.OutputFromRoot(&sink, root, append(append([]gtree.Option{}, fo...), gtree.WithNoUseIterOfSimpleOutput())...)
+				}},
+				{"OutputFromRoot as JSON", func() {
+					gtree.OutputFromRoot(&sink, root, append(append([]gtree.Option{}, fo...), gtree.WithEncodeJSON())...)
+				}},
+				{"a second WalkFromRoot", func() { gtree.WalkFromRoot(root, func(*gtree.WalkerNode) error { return nil }, fo...) }},
+				{"WalkIterFromRoot", func() {
+					for range gtree.WalkIterFromRoot(root, fo...) {
+					}
+				}},
+			} {
+				step.run()
+				diffs = append(diffs, cmp("walker nodes kept from WalkFromRoot, read after "+step.what+" on the same root, vs the Markdown walk", reread(), w2)...)
+			}
+			inside := walkOf(func(cb func(*gtree.WalkerNode) error) error {
+				return gtree.WalkFromRoot(root, func(wn *gtree.WalkerNode) error {
+					gtree.OutputFromRoot(&sink, root, fo...)
+					return cb(wn)
+				}, fo...)
+			})
+			diffs = append(diffs, cmp("walk whose callback prints the same root (OutputFromRoot) before it reads its node, vs the Markdown walk", inside, w2)...)
+		}
+	}
 	// mkdir + verify in jails
 	j1, j2 := newJail(), newJail()
 	defer os.RemoveAll(j1)
